@@ -17,6 +17,17 @@ import (
 
 // findVarDecl finds the initialiser expression of a package-level variable.
 func findVarDecl(pk *packages.Package, name string) (ast.Expr, *ast.File) {
+	if e, f := findVarDeclExact(pk, name); e != nil || token.IsExported(name) || theProgram == nil {
+		return e, f
+	}
+	// renamed? (fingerprints.go)
+	if nn := theProgram.resolveVarByFingerprint(relOf(pk.PkgPath), name); nn != "" {
+		return findVarDeclExact(pk, nn)
+	}
+	return nil, nil
+}
+
+func findVarDeclExact(pk *packages.Package, name string) (ast.Expr, *ast.File) {
 	for _, f := range pk.Syntax {
 		for _, d := range f.Decls {
 			gd, ok := d.(*ast.GenDecl)
